@@ -465,9 +465,144 @@ def library_spellings(tree, stats):
                 bump("isinstance(tuple)")
                 return loc(ast.BoolOp(op=ast.Or(), values=[ast.Call(func=ast.Name(id="isinstance", ctx=ast.Load()), args=[copy.deepcopy(c.args[0]), e], keywords=[]) for e in c.args[1].elts]), c)
             return c
+
+        # ---- list(X) spelled [*X]; set(X) spelled {*X}
+        def visit_List(self, n):
+            self.generic_visit(n)
+            if isinstance(n.ctx, ast.Load) and len(n.elts) == 1 and isinstance(n.elts[0], ast.Starred):
+                bump("[*x]")
+                return loc(ast.Call(func=ast.Name(id="list", ctx=ast.Load()), args=[n.elts[0].value], keywords=[]), n)
+            return n
+
+        # ---- X |= Y on a dict / set is X.update(Y)
+        def visit_AugAssign(self, n):
+            self.generic_visit(n)
+            if isinstance(n.op, ast.BitOr) and isinstance(n.target, (ast.Name, ast.Attribute, ast.Subscript)) and not isinstance(n.value, ast.Constant):
+                bump("x |= y")
+                tgt = copy.deepcopy(n.target)
+                for t in ast.walk(tgt):
+                    if isinstance(t, (ast.Name, ast.Attribute, ast.Subscript)) and isinstance(getattr(t, "ctx", None), ast.Store):
+                        t.ctx = ast.Load()
+                return loc(ast.Expr(value=ast.Call(func=ast.Attribute(value=tgt, attr="update", ctx=ast.Load()), args=[n.value], keywords=[])), n)
+            return n
+
+        # ---- string building: "a" + x + f"{y}b" is f"a{x}{y}b"; {x!r} is {repr(x)}
+        def visit_JoinedStr(self, n):
+            self.generic_visit(n)
+            for v in n.values:
+                if isinstance(v, ast.FormattedValue) and v.format_spec is None and v.conversion in (114, 115):
+                    bump("{x!r}")
+                    v.value = ast.Call(func=ast.Name(id="repr" if v.conversion == 114 else "str", ctx=ast.Load()), args=[v.value], keywords=[])
+                    v.conversion = -1
+            return n
+
+        def visit_BinOp(self, n):
+            self.generic_visit(n)
+            if not isinstance(n.op, ast.Add):
+                return n
+
+            def strish(e):
+                return isinstance(e, ast.JoinedStr) or (isinstance(e, ast.Constant) and isinstance(e.value, str))
+            if not (strish(n.left) or strish(n.right)):
+                return n
+            parts = []
+            for side in (n.left, n.right):
+                if isinstance(side, ast.JoinedStr):
+                    parts.extend(side.values)
+                elif isinstance(side, ast.Constant) and isinstance(side.value, str):
+                    parts.append(side)
+                else:
+                    parts.append(ast.FormattedValue(value=side, conversion=-1, format_spec=None))
+            merged = []
+            for q in parts:
+                if isinstance(q, ast.Constant) and merged and isinstance(merged[-1], ast.Constant):
+                    merged[-1] = ast.Constant(value=merged[-1].value + q.value)
+                else:
+                    merged.append(q)
+            bump("str +")
+            return loc(ast.JoinedStr(values=merged), n)
     R().visit(tree)
+    _guarded_affix_spellings(tree, bump)
     for k, v in count.items():
         stats[f"spelling:{k}"] = stats.get(f"spelling:{k}", 0) + v
+
+
+def _guarded_affix_spellings(tree, bump):
+    """s.removeprefix(P) where s.startswith(P) is known to hold is s[len(P):] (same for removesuffix / endswith)."""
+    def conj(test):
+        if isinstance(test, ast.BoolOp) and isinstance(test.op, ast.And):
+            out = set()
+            for v in test.values:
+                out |= conj(v)
+            return out
+        return {ast.unparse(test)}
+
+    class G(ast.NodeTransformer):
+        def __init__(self):
+            self.guards = [set()]
+
+        def under(self, extra, nodes):
+            self.guards.append(self.guards[-1] | extra)
+            out = [self.visit(x) for x in nodes]
+            self.guards.pop()
+            return out
+
+        def visit_If(self, n):
+            n.test = self.visit(n.test)
+            body = []
+            for r in self.under(conj(n.test), n.body):
+                body.extend(r if isinstance(r, list) else [r])
+            n.body = body
+            n.orelse = [self.visit(x) for x in n.orelse]
+            return n
+
+        def visit_IfExp(self, n):
+            n.test = self.visit(n.test)
+            n.body = self.under(conj(n.test), [n.body])[0]
+            n.orelse = self.visit(n.orelse)
+            return n
+
+        def visit_BoolOp(self, n):
+            if isinstance(n.op, ast.And):
+                seen = set()
+                for i, v in enumerate(n.values):
+                    n.values[i] = self.under(seen, [v])[0]
+                    seen = seen | conj(n.values[i])
+                return n
+            return self.generic_visit(n)
+
+        def _comp(self, n, parts):
+            g = set()
+            for gen in n.generators:
+                gen.iter = self.under(g, [gen.iter])[0]
+                for i, c in enumerate(gen.ifs):
+                    gen.ifs[i] = self.under(g, [c])[0]
+                    g = g | conj(gen.ifs[i])
+            for f in parts:
+                setattr(n, f, self.under(g, [getattr(n, f)])[0])
+            return n
+
+        def visit_ListComp(self, n):
+            return self._comp(n, ["elt"])
+        visit_SetComp = visit_GeneratorExp = visit_ListComp
+
+        def visit_DictComp(self, n):
+            return self._comp(n, ["key", "value"])
+
+        def visit_Call(self, c):
+            self.generic_visit(c)
+            f = c.func
+            if isinstance(f, ast.Attribute) and f.attr in ("removeprefix", "removesuffix") and len(c.args) == 1 and not c.keywords \
+                    and isinstance(c.args[0], ast.Constant) and isinstance(c.args[0].value, str) and c.args[0].value and _simple_arg(f.value):
+                test = "startswith" if f.attr == "removeprefix" else "endswith"
+                if f"{ast.unparse(f.value)}.{test}({ast.unparse(c.args[0])})" in self.guards[-1]:
+                    k = len(c.args[0].value)
+                    bump(f.attr)
+                    sl = ast.Slice(lower=ast.Constant(value=k), upper=None, step=None) if f.attr == "removeprefix" else \
+                        ast.Slice(lower=None, upper=ast.UnaryOp(op=ast.USub(), operand=ast.Constant(value=k)), step=None)
+                    return loc(ast.Subscript(value=f.value, slice=sl, ctx=ast.Load()), c)
+            return c
+    G().visit(tree)
 
 
 # ------------------------------------------------------------------------------------------------ 1b. new named constants
@@ -637,6 +772,17 @@ def _has_flow(loop):
     return any(isinstance(n, (ast.Break, ast.Continue, ast.Return, ast.Yield, ast.YieldFrom, ast.Await)) for n in ast.walk(loop))
 
 
+def _walk_same_scope(node):
+    """Nodes of a statement, not entering nested function / class bodies."""
+    todo = [node]
+    while todo:
+        n = todo.pop()
+        yield n
+        for c in ast.iter_child_nodes(n):
+            if not isinstance(c, (ast.FunctionDef, ast.AsyncFunctionDef, ast.Lambda, ast.ClassDef)):
+                todo.append(c)
+
+
 def canon_block(block, fn, counts):
     i = 0
     while i < len(block):
@@ -652,24 +798,55 @@ def canon_block(block, fn, counts):
             block[i:i + 1] = out
             counts["chained-assignment-split"] = counts.get("chained-assignment-split", 0) + 1
             continue
-        # if (x := E) <op> ...:   ->   x = E ; if x <op> ...:      (the walrus is the first thing the test evaluates)
-        if isinstance(st, ast.If):
-            t = st.test
-            first = t
+        # F = False ; try: BODY ; F = True  finally: if not F: CLEANUP    ->   try: BODY  except BaseException: CLEANUP ; raise
+        # (BODY has no return / break / continue, F is used nowhere else: the cleanup runs exactly when BODY raised)
+        if isinstance(st, ast.Assign) and len(st.targets) == 1 and isinstance(st.targets[0], ast.Name) and isinstance(st.value, ast.Constant) and st.value.value is False \
+                and isinstance(nxt, ast.Try) and not nxt.handlers and not nxt.orelse and len(nxt.finalbody) == 1 and len(nxt.body) >= 2:
+            flag = st.targets[0].id
+            last, fin = nxt.body[-1], nxt.finalbody[0]
+            uses = sum(1 for n in ast.walk(fn) if isinstance(n, ast.Name) and n.id == flag)
+            jumps = any(isinstance(n, (ast.Return, ast.Break, ast.Continue, ast.Yield, ast.YieldFrom, ast.Await)) for b in nxt.body for n in _walk_same_scope(b))
+            if isinstance(last, ast.Assign) and len(last.targets) == 1 and isinstance(last.targets[0], ast.Name) and last.targets[0].id == flag \
+                    and isinstance(last.value, ast.Constant) and last.value.value is True \
+                    and isinstance(fin, ast.If) and not fin.orelse and isinstance(fin.test, ast.UnaryOp) and isinstance(fin.test.op, ast.Not) \
+                    and isinstance(fin.test.operand, ast.Name) and fin.test.operand.id == flag and uses == 3 and not jumps:
+                handler = ast.ExceptHandler(type=ast.Name(id="BaseException", ctx=ast.Load()), name=None, body=fin.body + [loc(ast.Raise(exc=None, cause=None), fin)])
+                new_try = loc(ast.Try(body=nxt.body[:-1], handlers=[loc(handler, fin)], orelse=[], finalbody=[]), nxt)
+                block[i:i + 2] = [new_try]
+                counts["flag-finally->except-reraise"] = counts.get("flag-finally->except-reraise", 0) + 1
+                continue
+        # if (x := E) <op> ...:   ->   x = E ; if x <op> ...:      (the walrus is the first thing the statement evaluates)
+        hold = "test" if isinstance(st, ast.If) else "value" if isinstance(st, (ast.Return, ast.Expr, ast.Assign)) and st.value is not None else None
+        if hold:
+            first = getattr(st, hold)
             while True:
                 if isinstance(first, ast.BoolOp):
                     first = first.values[0]
                 elif isinstance(first, ast.Compare):
                     first = first.left
-                elif isinstance(first, ast.UnaryOp) and isinstance(first.op, ast.Not):
+                elif isinstance(first, ast.UnaryOp):
                     first = first.operand
+                elif isinstance(first, ast.BinOp):
+                    first = first.left
+                elif isinstance(first, (ast.Attribute, ast.Subscript)):
+                    first = first.value
+                elif isinstance(first, ast.Call) and isinstance(first.func, ast.Name) and first.args and not isinstance(first.args[0], ast.Starred):
+                    first = first.args[0]            # evaluating a plain name has no effect: the first argument comes first
+                elif isinstance(first, ast.Call) and isinstance(first.func, ast.Attribute):
+                    first = first.func.value
+                elif isinstance(first, ast.IfExp):
+                    first = first.test
                 else:
                     break
             if isinstance(first, ast.NamedExpr) and isinstance(first.target, ast.Name):
                 pre = loc(ast.Assign(targets=[ast.Name(id=first.target.id, ctx=ast.Store())], value=first.value), st)
-                _replace_node(st, first, loc(ast.Name(id=first.target.id, ctx=ast.Load()), first)) if first is not st.test else setattr(st, "test", loc(ast.Name(id=first.target.id, ctx=ast.Load()), first))
+                repl = loc(ast.Name(id=first.target.id, ctx=ast.Load()), first)
+                if first is getattr(st, hold):
+                    setattr(st, hold, repl)
+                else:
+                    _replace_node(st, first, repl)
                 block[i:i] = [pre]
-                counts["walrus-in-test-hoisted"] = counts.get("walrus-in-test-hoisted", 0) + 1
+                counts["walrus-hoisted"] = counts.get("walrus-hoisted", 0) + 1
                 i += 1
                 continue
         # loop body: `if c: continue` + rest  ->  `if not c: rest`
@@ -1422,7 +1599,9 @@ def rename_locals(fn, roles, keyword_names=frozenset()):
         if old == new:
             continue
         is_param = any(x.startswith(("param|", "vararg", "kwarg")) for x in row["sig"])
-        if new in free or new in staying or (is_param and old in keyword_names) or any(related(row["scope"], s2) for s2 in targets.get(new, [])):
+        # a parameter that callers may name as a keyword keeps its name -- unless every call site of the (private) function was made positional
+        kw_exposed = is_param and old in keyword_names and not getattr(row["scope"].node, "_calls_positional", False)
+        if new in free or new in staying or kw_exposed or any(related(row["scope"], s2) for s2 in targets.get(new, [])):
             continue
         mapping[(id(row["scope"]), old)] = new
         targets.setdefault(new, []).append(row["scope"])
@@ -1613,6 +1792,41 @@ def undo_function_renames(trees, ref=None, stats=None):
                 if nname not in renames and vname not in renames.values() and not (nname.startswith("__") and nname.endswith("__")):
                     renames[nname] = vname
                     del new[cands[0]]
+    # a private module-level function that moved to another module of the package (and is imported back): moved home
+    homed = []
+    for m, tree in trees.items():
+        known = set(inv.get(m, []))
+        cur = dict(top_functions(tree, m))
+        for v in [q for q in known if q not in cur and q.count(".") == 1 and q in fps]:
+            vname = v.split(".")[1]
+            if not private(vname):
+                continue
+            imported = [(st, al) for st in tree.body if isinstance(st, ast.ImportFrom) and st.level >= 1 for al in st.names if (al.asname or al.name) == vname]
+            if len(imported) != 1:
+                continue
+            st_imp, al = imported[0]
+            src_mod = (st_imp.module or "").split(".")[-1]
+            src = trees.get(src_mod)
+            if src is None or f"{src_mod}.{al.name}" in set(inv.get(src_mod, [])):
+                continue
+            cands = [f for f in src.body if isinstance(f, FUNC) and f.name == al.name and fingerprint(f) == fps[v]]
+            if len(cands) != 1:
+                continue
+            f = cands[0]
+            others = [t for mm, t in trees.items() if mm not in (m, src_mod)
+                      if any(isinstance(n, ast.alias) and n.name == al.name for n in ast.walk(t))]
+            used_at_home = any(isinstance(n, ast.Name) and n.id == al.name for x in src.body if x is not f for n in ast.walk(x))
+            if others or used_at_home:
+                continue
+            src.body.remove(f)
+            f.name = vname
+            tree.body.append(f)
+            st_imp.names.remove(al)
+            if not st_imp.names:
+                tree.body.remove(st_imp)
+            homed.append(f"{src_mod}.{al.name}->{v}")
+    if homed and stats is not None:
+        stats["functions-moved-back-to-their-module"] = homed
     # a method that became a module-level function of the same module (first parameter = the former receiver): moved back
     moved = []
     for m, tree in trees.items():
@@ -1669,6 +1883,151 @@ def undo_function_renames(trees, ref=None, stats=None):
     return renames
 
 
+# ------------------------------------------------------------------------------------------------ private call conventions
+def _is_private(name):
+    return name.startswith("_") and not (name.startswith("__") and name.endswith("__"))
+
+
+def _private_callables(trees):
+    """{(kind, name): [(def node, drop_first)]}: kind "name" = reached as NAME(...): module-level or nested private functions and private
+    classes (through __init__); kind "attr" = reached as <obj>.NAME(...): private methods."""
+    defs = {}
+    for m, tree in trees.items():
+        for n in ast.walk(tree):
+            if isinstance(n, ast.ClassDef):
+                for b in n.body:
+                    if isinstance(b, FUNC):
+                        b._owner_class = n
+        for n in ast.walk(tree):
+            if isinstance(n, FUNC) and _is_private(n.name):
+                owner = getattr(n, "_owner_class", None)
+                static = any(isinstance(d, ast.Name) and d.id == "staticmethod" for d in n.decorator_list)
+                if owner is not None:
+                    defs.setdefault(("attr", n.name), []).append((n, not static))
+                else:
+                    defs.setdefault(("name", n.name), []).append((n, False))
+            elif isinstance(n, ast.ClassDef) and _is_private(n.name):
+                init = next((b for b in n.body if isinstance(b, FUNC) and b.name == "__init__"), None)
+                if init is not None:
+                    defs.setdefault(("name", n.name), []).append((init, True))
+    return defs
+
+
+def _signature(fn, drop_first):
+    a = fn.args
+    params = [x.arg for x in a.posonlyargs + a.args]
+    dflt = dict(zip(params[len(params) - len(a.defaults):], a.defaults)) if a.defaults else {}
+    if drop_first:
+        params = params[1:]
+    return params, dflt
+
+
+def private_signatures(trees):
+    out = {}
+    for (kind, name), ds in _private_callables(trees).items():
+        sigs = {tuple(_signature(f, d)[0]) for f, d in ds}
+        if len(sigs) == 1 and not any(f.args.vararg or f.args.kwarg for f, d in ds):
+            out[f"{kind}:{name}"] = list(sigs.pop())
+    return out
+
+
+def normalise_private_calls(trees, ref=None, stats=None):
+    """Calling conventions of PRIVATE callables (underscore names: never part of the API) are made canonical before anything is compared:
+    (A) keyword arguments at their call sites become positional in the order of the definition (gaps filled with the definition's defaults);
+    (B) when the definition has the parameters of the reference definition in another order (or gives a default to a parameter the
+    reference requires), definition and call sites are put back into the reference order -- the default a caller relied on is written
+    out at the call site, so a changed default stays visible there."""
+    ref = reference() if ref is None else ref
+    stats = stats if stats is not None else {}
+    refsigs = ref.get("signatures", {})
+    defs = _private_callables(trees)
+    sites, loose = {}, {}
+    for tree in trees.values():
+        for n in ast.walk(tree):
+            if isinstance(n, ast.Call):
+                f = n.func
+                key = ("name", f.id) if isinstance(f, ast.Name) else ("attr", f.attr) if isinstance(f, ast.Attribute) else None
+                if key in defs:
+                    sites.setdefault(key, []).append(n)
+                    f._is_callee = True
+    for tree in trees.values():
+        for n in ast.walk(tree):
+            key = ("name", n.id) if isinstance(n, ast.Name) and isinstance(n.ctx, ast.Load) else ("attr", n.attr) if isinstance(n, ast.Attribute) and isinstance(n.ctx, ast.Load) else None
+            if key in defs and not getattr(n, "_is_callee", False):
+                loose[key] = loose.get(key, 0) + 1          # handed around as a value: callers we cannot see
+    for key, ds in defs.items():
+        sigs = {tuple(_signature(f, d)[0]) for f, d in ds}
+        if len(sigs) != 1 or any(f.args.vararg or f.args.kwarg or f.args.posonlyargs for f, d in ds):
+            continue
+        params = list(sigs.pop())
+        calls = sites.get(key, [])
+        if any(isinstance(a, ast.Starred) for c in calls for a in c.args) or any(k.arg is None for c in calls for k in c.keywords):
+            continue
+        dfl = [_signature(f, d)[1] for f, d in ds]
+        if any(sorted(x) != sorted(dfl[0]) or any(ast.dump(x[k]) != ast.dump(dfl[0][k]) for k in x) for x in dfl[1:]):
+            continue
+        dflt = dfl[0]
+        order = params
+        want = refsigs.get(f"{key[0]}:{key[1]}")
+        reordered = False
+        if want is not None and want != params and sorted(want) == sorted(params) and not loose.get(key):
+            order, reordered = list(want), True
+        # defaults that survive: a trailing block in the final order
+        keep = set()
+        for p_ in reversed(order):
+            if p_ in dflt:
+                keep.add(p_)
+            else:
+                break
+        if not reordered:
+            keep = set(dflt)
+        ok = True
+        plans = []
+        for c in calls:
+            bound = dict(zip(params, c.args))
+            extra = []
+            if len(c.args) > len(params):
+                ok = False
+                break
+            for k in c.keywords:
+                if k.arg in params and k.arg not in bound:
+                    bound[k.arg] = k.value
+                else:
+                    extra.append(k)
+            explicit = [i for i, p_ in enumerate(order) if p_ in bound]
+            need = [i for i, p_ in enumerate(order) if p_ not in keep]
+            last = max(explicit + need) if explicit + need else -1
+            new_args = []
+            for p_ in order[:last + 1]:
+                if p_ in bound:
+                    new_args.append(bound[p_])
+                elif p_ in dflt:
+                    new_args.append(copy.deepcopy(dflt[p_]))
+                else:
+                    ok = False
+            plans.append((c, new_args, extra))
+        if not ok:
+            continue
+        changed = 0
+        for c, new_args, extra in plans:
+            if len(new_args) != len(c.args) or any(a is not b for a, b in zip(new_args, c.args)) or len(extra) != len(c.keywords):
+                changed += 1
+            c.args, c.keywords = new_args, extra
+        for f, drop in ds:
+            if not loose.get(key):
+                f._calls_positional = True
+        if changed:
+            stats["private-call-keywords->positional"] = stats.get("private-call-keywords->positional", 0) + changed
+        if reordered:
+            for f, drop in ds:
+                a = f.args
+                head = a.args[:1] if drop else []
+                byname = {x.arg: x for x in a.args}
+                a.args = head + [byname[p_] for p_ in order]
+                a.defaults = [dflt[p_] for p_ in order if p_ in keep]
+            stats.setdefault("private-signature-reordered", []).append(f"{key[1]}({', '.join(params)}) -> ({', '.join(order)})")
+
+
 def build_reference(root):
     """Inventory and role tables of the tree under `root` (run by tools_reference.py on the reference tree only)."""
     pkg = os.path.join(root, "ptera")
@@ -1682,6 +2041,8 @@ def build_reference(root):
     ref = {"inventory": inv, "roles": {}, "fingerprints": {q: fingerprint(f) for m, tree in trees.items() for q, f in top_functions(tree, m)},
            "module_names": {m: sorted(module_level_names(tree)) for m, tree in trees.items()},
            "module_values": {m: module_level_values(tree) for m, tree in trees.items()}}
+    normalise_private_calls(trees, ref={}, stats={})
+    ref["signatures"] = private_signatures(trees)
     roles = {}
     for m, tree in trees.items():
         normalise(tree, m, ref=ref)
